@@ -1,6 +1,7 @@
 package props
 
 import (
+	"encoding/json"
 	"fmt"
 	"math"
 	"sort"
@@ -17,6 +18,9 @@ var stringPool = []string{
 	"", "a", "b", "x y", "\u0000", "nul\u0000inside", `q"uote`, `back\slash`, "/", "~", "~0", "~1", "a/b", "-", ".", "a.b",
 	"<>&", " ", " ", "\U0001F600", "héllo", "123", "-0", "1e5", "null", "true", "{}", "[]",
 	"$set", "_id", "_orda_ver_", " lead", "trail ", "tab\tnl\n",
+	// text that LOOKS like an escape sequence (already-serialised JSON or HTML stored as a string): the
+	// characters backslash, u, 0, 0, 3, c ... must come back as exactly those characters
+	`\u003c`, `\u003e`, `\u0026`, `\u2028`, `\u0000`, `\n`, `\"`, `\\`, `{"html":"\u003cb\u003e"}`, `\\u003c`, "%s%d", "&lt;", "\u007f", "\ufeff",
 }
 
 var longString = strings.Repeat("long-string-0123456789-", 60)
@@ -30,6 +34,11 @@ func genString(rt *rapid.T, label string) string {
 	case 5:
 		// arbitrary valid UTF-8 (rapid.String only yields valid runes)
 		return rapid.StringN(0, 12, -1).Draw(rt, label+".any")
+	case 6:
+		// a string that is itself the JSON encoding of another pool string (escapes inside a string)
+		inner := rapid.SampledFrom(stringPool).Draw(rt, label+".inner")
+		b, _ := json.Marshal(map[string]string{"s": inner})
+		return string(b)
 	default:
 		return rapid.StringMatching(`[a-z]{1,4}`).Draw(rt, label+".plain")
 	}
